@@ -5,6 +5,7 @@ package main
 
 import (
 	"bufio"
+	"bytes"
 	"crypto/hmac"
 	"encoding/json"
 	"hash"
@@ -48,6 +49,16 @@ func c04Key(n int) []byte {
 
 func c04Play(h hash.Hash, ops []hashOp, ev *evw) {
 	pos := 0
+	// the slices earlier Sum calls returned (kept, not copied) and their values at the time
+	var kept, snap [][]byte
+	resultsIntact := func() bool {
+		for i := range kept {
+			if !bytes.Equal(kept[i], snap[i]) {
+				return false
+			}
+		}
+		return true
+	}
 	for _, o := range ops {
 		switch o.Op {
 		case "write":
@@ -71,7 +82,7 @@ func c04Play(h hash.Hash, ops []hashOp, ev *evw) {
 				full[i] = 0xEE
 			}
 			pos += o.N
-			ev.emit(map[string]interface{}{"ev": "write", "n": o.N, "ret": n, "err": err != nil, "caller_intact": intact})
+			ev.emit(map[string]interface{}{"ev": "write", "n": o.N, "ret": n, "err": err != nil, "caller_intact": intact, "results_intact": resultsIntact()})
 		case "sum":
 			cp := o.P
 			if o.C == 1 {
@@ -81,6 +92,9 @@ func c04Play(h hash.Hash, ops []hashOp, ev *evw) {
 			for i := range buf {
 				buf[i] = byte(200 + ((i + 1) % 50))
 			}
+			if o.P == 0 && o.C == 0 {
+				buf = nil // Sum(nil), the usual call
+			}
 			out := h.Sum(buf)
 			intact := true
 			for i := range buf {
@@ -88,11 +102,12 @@ func c04Play(h hash.Hash, ops []hashOp, ev *evw) {
 					intact = false
 				}
 			}
-			ev.emit(map[string]interface{}{"ev": "sum", "p": o.P, "c": o.C, "out": ints(out), "prefix_intact": intact})
+			ev.emit(map[string]interface{}{"ev": "sum", "p": o.P, "c": o.C, "out": ints(out), "prefix_intact": intact, "results_intact": resultsIntact()})
+			kept, snap = append(kept, out), append(snap, append([]byte(nil), out...))
 		case "reset":
 			h.Reset()
 			pos = 0
-			ev.emit(map[string]interface{}{"ev": "reset"})
+			ev.emit(map[string]interface{}{"ev": "reset", "results_intact": resultsIntact()})
 		}
 	}
 }
